@@ -18,6 +18,14 @@ import (
 
 var outcomeFns = map[string]func(s *coop.Sched) string{"C27": c27.Outcome, "C28": c28.Outcome}
 
+// per-property limits: executions per (harness, bound, shard) and the thorough bounds (default 400000 / 20000000, 0..4)
+type limits struct {
+	quickCap, thoroughCap int64
+	thoroughBounds        []int
+}
+
+var perProperty = map[string]limits{"C28": {8000, 120000, []int{0, 1, 2, 3}}}
+
 // additional sequential-history enumerations that run in worker processes next to the schedule exploration
 var sequentialFns = map[string]func(run *ev.Run) (wait func()){"C28": c28.StartSequential}
 
@@ -48,6 +56,12 @@ func main() {
 		var waitSeq func()
 		if f := sequentialFns[id]; f != nil {
 			waitSeq = f(run)
+		}
+		if c, ok := perProperty[id]; ok {
+			capPerShard = c.quickCap
+			if ev.Tier() == "thorough" {
+				capPerShard, bounds = c.thoroughCap, c.thoroughBounds
+			}
 		}
 		coopdrv.Run(run, id, bounds, 16, capPerShard, deadline)
 		if waitSeq != nil {
